@@ -1202,6 +1202,7 @@ func (interpreter *Interpreter) declareAttachmentValue(
 func (interpreter *Interpreter) evaluateDefaultDestroyEvent(
 	containingResourceComposite *CompositeValue,
 	eventDecl *ast.CompositeDeclaration,
+	eventType *sema.CompositeType,
 	declarationActivation *VariableActivation,
 ) (arguments []Value) {
 
@@ -1230,7 +1231,7 @@ func (interpreter *Interpreter) evaluateDefaultDestroyEvent(
 	}
 	declarationInterpreter.declareSelfVariable(self)
 
-	for _, parameter := range parameters {
+	for i, parameter := range parameters {
 		// "lazily" evaluate the default argument expressions.
 		// This is "lazy" with respect to the event's declaration:
 		// if we declare a default event `ResourceDestroyed(foo: Int = self.x)`,
@@ -1238,6 +1239,18 @@ func (interpreter *Interpreter) evaluateDefaultDestroyEvent(
 		// not the context when it is declared. This function is only called after the destroy
 		// triggers the event emission, so with respect to this function it's "eager".
 		defaultArg := declarationInterpreter.evalExpression(parameter.DefaultArgument)
+
+		// Just like for an explicit argument of an invocation,
+		// convert and box the default argument to the parameter type,
+		// e.g. if the parameter type is an optional type
+		parameterType := eventType.ConstructorParameters[i].TypeAnnotation.Type
+		defaultArg = ConvertAndBoxWithValidation(
+			declarationInterpreter,
+			defaultArg,
+			nil,
+			parameterType,
+		)
+
 		arguments = append(arguments, defaultArg)
 	}
 
@@ -1404,6 +1417,7 @@ func (interpreter *Interpreter) declareNonEnumCompositeValue(
 					invocation.Arguments = declarationInterpreter.evaluateDefaultDestroyEvent(
 						containerComposite,
 						compositeDecl,
+						compositeType,
 						// to properly lexically scope the evaluation of default arguments, we capture the
 						// activations existing at the time when the event was defined and use them here
 						declarationActivation,
